@@ -352,3 +352,23 @@ func init() {
 		knownPrimitive[n] = true
 	}
 }
+
+// flowSelfTest runs the engine's matchers on the built-in positive fixture (analysed, never executed) and
+// records one obligation per matcher: rules that are expected to report nothing on the real tree are only
+// meaningful if their matcher can fire.
+func flowSelfTest(c *Ctx) {
+	const rule = "R0.selftest"
+	c.Run.Rule(rule, "the flow matchers report the defects seeded in the built-in fixture and accept their correct twins")
+	res, err := flow.SelfTest()
+	if err != nil {
+		c.Run.Unknown(rule, "fixture/build", "", "fixture type-checks and builds", err.Error())
+		return
+	}
+	for _, r := range res {
+		if r.Fired {
+			c.Run.OK(rule, "fixture/"+r.Name, "", "matcher fires on the seeded defect only", "fired", false)
+		} else {
+			c.Run.Unknown(rule, "fixture/"+r.Name, "", "matcher fires on the seeded defect only", "did not behave as expected "+r.Got)
+		}
+	}
+}
